@@ -117,11 +117,16 @@ PInvUnambiguousLookAlikes == row = 0 => Unambiguous(LookAlikes)
 \* near misses (see Print!ParsePrintsBack): every text of the small universe with one token
 \* dropped, and (thorough) with one token replaced by a delimiter
 Replacements == IF Depth >= 3 THEN {"|", ",", ")", "(", "->"} ELSE {}
-NearMisses(s) == {DropTok(s, p) : p \in 1..Len(s)}
-                 \cup {ReplaceTok(s, p, t) : p \in 1..Len(s), t \in Replacements}
+\* (the wide unions have 120 and 720 orderings each: their texts get the dropped-token near misses in both tiers, the
+\* replaced-token ones are left to the other types - five replacements per position of every ordering took the thorough
+\* tier's emission past its time limit)
+WideTypes == {Multi({TBool, TInt, TFloat, TString, TVoid}), Multi({TBool, TInt, TFloat, TString, TVoid, Arr(TInt)}),
+              Arr(Multi({TBool, TInt, TFloat, TString, MutT(TInt)}))}
+NearMisses(T, s) == {DropTok(s, p) : p \in 1..Len(s)}
+                    \cup (IF T \in WideTypes THEN {} ELSE {ReplaceTok(s, p, t) : p \in 1..Len(s), t \in Replacements})
 PInvNearMisses == (row > 0 /\ PCur \in Small) =>
-                     \A s \in PrintSet(PCur) : \A x \in NearMisses(s) : ParsePrintsBack(x)
-NegTexts == UNION {UNION {NearMisses(s) : s \in PrintSet(T)} : T \in Small} \ UNION {PrintSet(T) : T \in Small}
+                     \A s \in PrintSet(PCur) : \A x \in NearMisses(PCur, s) : ParsePrintsBack(x)
+NegTexts == UNION {UNION {NearMisses(T, s) : s \in PrintSet(T)} : T \in Small} \ UNION {PrintSet(T) : T \in Small}
 NegSeq == SetToSeq(NegTexts)
 
 PInit == row = 0
